@@ -509,7 +509,7 @@ def make_worker(ctx, det_n):
                         res['dims'][k] = res['dims'].get(k, 0) + 1
                 if rules and any(not any(all(lit_match(l, r) for l in lits) for _, lits in rules) for r in UNIVERSE):
                     res['default_decided'] += 1
-                if len(res['samples']) < 2 and n % 37 == 5:
+                if len(res['samples']) < 1 and n == ((1 + 3 * shard) if shard % 2 == 0 else len(items) - 1 - shard):
                     res['samples'].append({'http_access': rules_key(rules), 'forwarded': na, 'denied_403': nd,
                                            'forwarded_requests': [req_key(r) for r, t in zip(UNIVERSE, tr) if t[2] > 0][:6]})
                 if probs:
